@@ -500,8 +500,16 @@ fn parse_inner<J: Jet>(
                 }
             };
 
-            let name = Option::<Arc<str>>::clone(&data.node.name)
-                .unwrap_or_else(|| Arc::from(namer.assign_name(inner.as_ref()).as_str()));
+            let name = Option::<Arc<str>>::clone(&data.node.name).unwrap_or_else(|| {
+                // Generated names must not collide with names used in the source.
+                // (Typed holes are named by the user; for them `assign_name` has no counter.)
+                let is_hole = matches!(inner, node::Inner::Witness(WitnessOrHole::TypedHole(..)));
+                let mut name = namer.assign_name(inner.as_ref());
+                while !is_hole && resolved_map.contains_key(name.as_str()) {
+                    name = namer.assign_name(inner.as_ref());
+                }
+                Arc::from(name.as_str())
+            });
 
             let node = NamedConstructNode::new(
                 &inference_context,
